@@ -250,6 +250,7 @@ inductive Cmd where
   | subsh (body : List Cmd)
   | andor (l : Cmd) (isAnd : Bool) (r : Cmd)
   | neg (c : Cmd)                              -- `! command`
+  | async (c : Cmd)                            -- `and-or-list &`
   deriving Repr, Inhabited
 
 /-- parser result: value and remaining tokens, or "the tokens ran out", or a syntax error -/
@@ -595,6 +596,12 @@ mutual
           | .op ";" :: r' =>
             (match pList cfg n r' with
              | .ok cs r'' => .ok (c :: cs) r''
+             | .inc => .inc
+             | .err => .err)
+          | .op "&" :: r' =>
+            -- `Operator(And)`: the and-or list is asynchronous
+            (match pList cfg n r' with
+             | .ok cs r'' => .ok (.async c :: cs) r''
              | .inc => .inc
              | .err => .err)
           | _ => .ok [c] r
